@@ -5,6 +5,36 @@ HERE = os.path.dirname(os.path.dirname(os.path.abspath(__file__)))
 ALL = ["C%02d" % i for i in range(1, 21)]
 
 CHECKS = {
+ "C04": dict(
+   level="exploration",
+   technique="runtime invariant monitor at quiescent points (after every tx, after EndBlock+Commit, after BeginBlock) over a seeded hostile liquidity workload of real signed transactions on 3 apps x 4 pairs",
+   text="All 15 liquidity message kinds (pairs, basic/ranged pools, deposits, withdrawals, limit/market/MM orders, cancels, farm/unfarm and combinations), amounts tiny to whole balance, crossing prices, lifespans to max+1, block gaps 5 s..13 h, drained pools; after every step: global escrow >= pending deposit + withdraw coins, each pair escrow >= remaining offer coins of live orders, module account == active+queued farmed pool coins per pool, zero-supply pools disabled, pool-coin supply changes == executed deposits/withdrawals of that pool.",
+   note="Sums are recomputed by the harness from request/order/farmer records read through the keeper.",
+   design="§4 C04"),
+ "C07": dict(
+   level="exploration",
+   technique="runtime per-order ledger monitor: exact per-step balance accounting of dedicated orderer accounts and swap-fee collectors, pair-escrow equality, cancel / MM-cancel implications, over the shared liquidity workload with every (app id, pair id) combination where the two differ",
+   text="5 orderer accounts do nothing but orders, so their balances are explained exactly: placement takes offer + floor(offer*rate), fills follow received-coin deltas, termination returns remaining + reserve - floor(executed*rate); pair escrow == sum over live orders; an owner cancel of an earlier-batch order must succeed; after MM cancel/replace no earlier MM order of that owner in that pair is live; a tx only terminates its signer's orders. Swap fee rates {0,0.003,0.05}, all order types and endings (completed, expired, cancelled, cancel-all, MM replace).",
+   note="Market-making orders carry no swap-fee reserve in the code; modelled as intended (the statement is silent). The swap fee rate is constant per run.",
+   design="§4 C07"),
+ "C09": dict(
+   level="exploration",
+   technique="runtime monitor on seizure events (exact ratio with interval slack decides safety) + per-vault bounded-progress counter advanced every block (liveness restated as: seized within 2*ceil(L/batch)+2 sweeps) + hand-over coin/auction-count checks",
+   text="Vault populations on a generation-1 app (liquidate messages) and a generation-2 app (per-block sweep, batch size {1,2,5,200}, plus messages), oracle price drops/crashes/recoveries, other vaults opened and closed between sweeps. Every seizure: collateral value / total debt (recorded post-accrual debt) must be below the liquidation ratio beyond rounding; every block: a clearly unsafe, eligible vault may survive at most the bounded number of sweeps; seizure moves exactly the recorded collateral into auction custody and opens exactly one auction.",
+   note="Vault side only in this check (borrow liquidations are exercised by the lend workload of C08). The generation-1 sweep is not wired into the module manager at this commit (x/liquidation/module.go BeginBlock is commented out), so liveness is decided for generation-2-enabled apps and generation-1 seizures come from messages. Unbounded 'eventually' is out of reach of a finite run and is restated as the bounded-progress law.",
+   design="§4 C09"),
+ "C10": dict(
+   level="exploration",
+   technique="runtime conservation monitor: custody identity of both auction module accounts after every event (records account for every coin), cumulative and per-bid exchange-rate oracle on observed balance deltas, posted-price trace checks",
+   text="Liquidation workload with 8 bidders (tiny/partial/exact/oversized bids, bids across price updates and restarts, limit bids auto-filled). After every tx and block: custody == remaining collateral + collected debt of live Dutch auctions + standing English bids + limit-bid deposits + booked fees (+ parked surplus lots, unsolicited coins); per bid: cumulative paid <= target, cumulative collateral <= seized, received <= (paid+bonus) buys at the posted price + one unit of each coin; posted price non-increasing between restarts, within [end, start], start <= oracle*premium.",
+   note="Generation-1 Dutch auctions exist only through liquidate messages and their price is never updated (x/auction BeginBlock is not wired at this commit). Bids by the auction's keeper/owner are excluded from the per-bid price law because incentive/remainder land on the same account.",
+   design="§4 C10"),
+ "C11": dict(
+   level="exploration",
+   technique="runtime monitor on English-style bids (improvement, same-tx refund, custody delta, single winner, losers' net flow zero) and a per-depositor limit-bid ledger with attacker-chosen amount/denom in withdraw messages",
+   text="Surplus and debt auctions of generation 2 are opened by the real begin blocker from collector net fees; bidders place equal / barely improving / non-improving / large bids; at the end exactly the standing bidder receives the lot and every other participant's net flow is zero. Limit bids: withdraw/cancel pay only the deposited asset, at most the caller's own outstanding deposit less the stated fee; recorded total == sum of deposits; custody >= deposits. Hostile withdrawals: deposit+1, 1000x, whole custody, other denom held by the module.",
+   note="Generation-1 surplus/debt auctions can only be started by the generation-1 auction begin blocker, which is not wired at this commit; they are out of reach of real blocks.",
+   design="§4 C11"),
  "C06": dict(
    level="exploration",
    technique="runtime monitoring of the real amm.Deposit / Withdraw / CreateRangedPool / Price on an exhaustively enumerated small domain plus wide seeded inputs to 10^40, exact big.Int/big.Rat oracles; in-situ checks on reserve balances and pool-coin supply around executed requests",
